@@ -206,6 +206,42 @@ func (m *Monitors) pathName() string {
 	return t
 }
 
+// afterStep: where the process came to rest after one operation (C07 back-off, C15 redelivered delete requests).
+func (m *Monitors) afterStep(s *Sim, role, tok string) {
+	w := m.w
+	pk, ok := w.S.parkedAt(role)
+	if !ok {
+		return
+	}
+	hasCancel := false
+	for _, k := range w.env.Faults {
+		if k == FCancel {
+			hasCancel = true
+		}
+	}
+	backoff := time.Duration(w.Cfg.ErrBackOffSec) * time.Second
+	inBackoff := pk.kind == gTimer && pk.deadline.Equal(w.S.now.Add(backoff))
+	// C07: "the same event is handled again (after the configured back-off when the cause was an error)"
+	if m.opFailed && !m.opLeaseLost && !hasCancel && !strings.HasPrefix(tok, "pol:") && tok != "ob" && backoff > 0 && !inBackoff && pk.kind == gRole {
+		if _, unacked := m.unacked[role]; unacked {
+			m.violate("C07", "backoff-after-error", "no-backoff-after-failed-handling:"+strings.SplitN(tok, ":", 2)[0]+m.afterFlagIfAny(),
+				fmt.Sprintf("%s failed handling an event (%q, fault plan %v) and is back at its role gate at once instead of waiting the error back-off of %v", tok, m.opFnErr, w.env.Faults, backoff))
+		}
+	}
+	// C15: "a redelivered request leaves the run DataDeleted and scrubbed": the delete consumer must not fail on an event of a
+	// run that is already DataDeleted when nothing was injected and the delete function did not fail
+	if tok == "del" && !m.opFailed && !m.opLeaseLost && len(w.env.Faults) == 0 && m.w.env.Stale == 0 {
+		if idx, unacked := m.unacked[role]; unacked && inBackoff && idx < len(w.log) {
+			if rr, ok := w.byID[w.log[idx].Headers[workflow.HeaderRunID]]; ok && len(rr.versions) > 0 && int(rr.versions[len(rr.versions)-1].RunState) == 6 {
+				m.violate("C15", "redelivery-idempotent", "redelivered-delete-request-fails"+m.afterFlagIfAny(),
+					fmt.Sprintf("the delete consumer failed on e%d although nothing was injected and the delete function did not fail: run r%d is already DataDeleted (a redelivered request); the consumer is wedged on this event", idx, rr.ord))
+			}
+		}
+	}
+}
+
+func (m *Monitors) afterFlagIfAny() string { return m.afterFlag() }
+
 // ---------- operation framing ----------
 
 func (m *Monitors) beginOp(role, tok string) {
